@@ -32,15 +32,6 @@ impl<'a> vstd::std_specs::iter::IteratorSpecImpl for Unquote<'a> {
     open spec fn peek(&self, i: int) -> Option<char> { None }
     open spec fn will_return_none(&self) -> bool { false }
 }
-// ---- the unquoted text (C17): what the character-by-character path yields
-pub open spec fn unq_quoted(s: Seq<char>) -> Seq<char>
-    decreases s.len()
-{
-    if s.len() == 0 { Seq::empty() }
-    else if s[0] == '"' { Seq::empty() }
-    else if s[0] == '\\' { if s.len() == 1 { Seq::empty() } else { seq![s[1]] + unq_quoted(s.skip(2)) } }
-    else { seq![s[0]] + unq_quoted(s.skip(1)) }
-}
 pub open spec fn unq(st: UnquoteState, s: Seq<char>) -> Seq<char> {
     match st {
         UnquoteState::NotStarted => if s.len() > 0 && s[0] == '"' { unq_quoted(s.skip(1)) } else { s },
@@ -77,7 +68,7 @@ pub fn unquote_to_string<'a>(u: &Unquote<'a>) -> (r: String) ensures r@ == unq(u
 def build(repo):
     u = Unit(NAME, repo)
     u.raw('use vstd::std_specs::iter::IteratorSpec;\nuse std::borrow::Cow;\nuse core::iter::FusedIterator;\n', 'units/unq.py')
-    u.prelude('strmodel.rs')
+    u.prelude('strmodel.rs', 'unqspec.rs')
     u.raw(SPEC, 'units/unq.py')
     u.items('link_format.rs', 'const QUOTE_ESCAPE_CHAR', 'pub struct Unquote', 'enum UnquoteState')
     u.impl_fns('link_format.rs', "impl<'a> Unquote<'a>", ['new', 'to_cow', 'is_quoted'])
@@ -125,7 +116,7 @@ def build(repo):
         }''')
     u.contract(NX, '''        ensures ({
             let out = unq(old(self).state, old(self).inner.remaining());
-            // @clause next-yields-unquoted-text @props C17
+            // @clause next-yields-unquoted-text @props C17 C16
             &&& r == (if out.len() == 0 { None::<char> } else { Some(out[0]) })
             &&& unq(final(self).state, final(self).inner.remaining()) == (if out.len() == 0 { out } else { out.skip(1) })
         })''', props=PROPS)
